@@ -70,11 +70,15 @@ struct RootS {
     ver: RootVersion,
     recs: Vec<(u32, [u8; 16], Option<u64>, u32, u64)>,
     parsed: Option<RootFile>,
-    /// (fdid) -> list of (locale, content, ckey) in insertion order
-    by_id: BTreeMap<u32, Vec<(u32, u64, [u8; 16])>>,
-    by_hash: BTreeMap<u64, Vec<(u32, u64, [u8; 16])>>,
+    /// the reference maps: (FileDataID | name hash | normalised path, locale, content flags of the
+    /// block the record was inserted into) -> content keys in insertion order
+    by_id: BTreeMap<(u32, u32, u64), Vec<[u8; 16]>>,
+    by_hash: BTreeMap<(u64, u32, u64), Vec<[u8; 16]>>,
+    by_path: BTreeMap<(Vec<u8>, u32, u64), Vec<[u8; 16]>>,
     ambiguous: bool,
     consistent_names: bool,
+    /// a content-flags value wider than the version's field was inserted (the writer truncates it)
+    wide: bool,
 }
 
 #[derive(Default)]
@@ -133,6 +137,29 @@ fn ver_num(v: RootVersion) -> u32 {
 
 fn entry_matches(bl: u32, bc: u64, l: u32, c: u64) -> bool {
     (bl & l) != 0 && (bc & c) == c
+}
+
+/// content keys of the inserted records of `key` whose own block (locale, content) matches the query
+fn ref_matches<K: Ord + Clone>(m: &BTreeMap<(K, u32, u64), Vec<[u8; 16]>>, key: &K, loc: u32, cf: u64) -> BTreeSet<[u8; 16]> {
+    m.range((key.clone(), 0, 0)..=(key.clone(), u32::MAX, u64::MAX))
+        .filter(|((_, bl, bc), _)| entry_matches(*bl, *bc, loc, cf))
+        .flat_map(|(_, v)| v.iter().copied())
+        .collect()
+}
+/// every inserted (locale, content, ckey) of `key`, sorted
+fn ref_entries<K: Ord + Clone>(m: &BTreeMap<(K, u32, u64), Vec<[u8; 16]>>, key: &K) -> Vec<(u32, u64, [u8; 16])> {
+    let mut v: Vec<(u32, u64, [u8; 16])> =
+        m.range((key.clone(), 0, 0)..=(key.clone(), u32::MAX, u64::MAX)).flat_map(|((_, bl, bc), v)| v.iter().map(move |ck| (*bl, *bc, *ck))).collect();
+    v.sort();
+    v
+}
+/// linear scan of the parsed blocks: the first record (block order, record order) satisfying `q` in a
+/// block whose flags match the query
+fn scan_blocks(p: &RootFile, q: impl Fn(&cascette_formats::root::RootRecord) -> bool, loc: u32, cf: u64) -> Option<[u8; 16]> {
+    p.blocks
+        .iter()
+        .filter(|b| entry_matches(b.header.locale_flags.value(), b.header.content_flags, loc, cf))
+        .find_map(|b| b.records.iter().find(|r| q(r)).map(|r| *r.content_key.as_bytes()))
 }
 
 fn show_header(h: &RootHeader) -> String {
@@ -212,8 +239,10 @@ impl Impl {
                     parsed: None,
                     by_id: BTreeMap::new(),
                     by_hash: BTreeMap::new(),
+                    by_path: BTreeMap::new(),
                     ambiguous: false,
                     consistent_names: true,
+                    wide: false,
                 });
                 self.built = false;
                 return Some("ok".into());
@@ -605,9 +634,20 @@ impl Impl {
                 _ => None,
             },
             Mode::Root(st) => match toks {
-                ["r", fd, ck, nh, loc, cf] => {
+                [op @ ("r" | "rp"), fd, ck, nh, loc, cf] => {
                     let (fd, ck, loc, cf) = (fd.parse::<u32>().ok()?, k16(ck)?, loc.parse::<u32>().ok()?, cf.parse::<u64>().ok()?);
-                    let nh = if *nh == "-" { None } else { Some(nh.parse::<u64>().ok()?) };
+                    // `r`: numeric name hash or `-`; `rp`: an ASCII path (hex), hashed by calculate_name_hash as RootBuilder::add_file does
+                    let (nh, path) = if *op == "rp" {
+                        let raw = unhex(nh)?;
+                        if !raw.is_ascii() {
+                            return None;
+                        }
+                        (Some(calculate_name_hash(std::str::from_utf8(&raw).ok()?)), Some(raw))
+                    } else if *nh == "-" {
+                        (None, None)
+                    } else {
+                        (Some(nh.parse::<u64>().ok()?), None)
+                    };
                     if built {
                         return None;
                     }
@@ -616,10 +656,16 @@ impl Impl {
                     if block_named != nh.is_some() {
                         st.consistent_names = false;
                     }
+                    if cf >= (if st.ver == RootVersion::V4 { 1u64 << 40 } else { 1u64 << 32 }) {
+                        st.wide = true;
+                    }
                     st.recs.push((fd, ck, nh, loc, cf));
-                    st.by_id.entry(fd).or_default().push((loc, cf, ck));
+                    st.by_id.entry((fd, loc, cf)).or_default().push(ck);
                     if let Some(h) = nh {
-                        st.by_hash.entry(h).or_default().push((loc, cf, ck));
+                        st.by_hash.entry((h, loc, cf)).or_default().push(ck);
+                    }
+                    if let Some(p) = path {
+                        st.by_path.entry((norm_path(&p), loc, cf)).or_default().push(ck);
                     }
                     Some("ok".into())
                 }
@@ -682,32 +728,95 @@ impl Impl {
                         ";",
                     ))
                 }
-                [op, a, loc, cf] => {
+                ["stats"] => {
                     let Some(p) = &st.parsed else { return if built { Some("err:nofile".into()) } else { None } };
-                    let (a, loc, cf) = (a.parse::<u64>().ok()?, loc.parse::<u32>().ok()?, cf.parse::<u64>().ok()?);
+                    // lookup_stats = number of distinct FileDataIDs / name hashes in the lookup tables
+                    let (ids, names) = p.lookup_stats();
+                    let want_ids = st.by_id.keys().map(|k| k.0).collect::<BTreeSet<_>>().len();
+                    let want_names = st.by_hash.keys().map(|k| k.0).collect::<BTreeSet<_>>().len();
+                    if ids != want_ids || (st.consistent_names && names != want_names) {
+                        let sig = if st.ambiguous { SIG_V2 } else { "root-lookup-stats" };
+                        fail(s, sig, format!("lookup tables hold {ids} FileDataIDs / {names} name hashes, inserted {want_ids} / {want_names}"));
+                    }
+                    Some(format!("fdids={ids} names={names}"))
+                }
+                [op @ ("ids" | "paths"), a] => {
+                    let Some(p) = &st.parsed else { return if built { Some("err:nofile".into()) } else { None } };
+                    // every lookup-table entry of a FileDataID / path: one per inserted record, carrying the
+                    // locale and content flags of the record's own block, in block order
+                    let (ents, want, what): (Option<&Vec<_>>, Vec<(u32, u64, [u8; 16])>, Box<dyn Fn(&cascette_formats::root::RootRecord) -> bool>) = if *op == "ids" {
+                        let fd = a.parse::<u64>().ok()? as u32;
+                        (p.get_entries_by_id(FileDataId::new(fd)), ref_entries(&st.by_id, &fd), Box::new(move |r| r.file_data_id.get() == fd))
+                    } else {
+                        let raw = unhex(a)?;
+                        if !raw.is_ascii() {
+                            return None;
+                        }
+                        let ps = String::from_utf8(raw.clone()).ok()?;
+                        let h = calculate_name_hash(&ps);
+                        (p.get_entries_by_path(&ps), ref_entries(&st.by_path, &norm_path(&raw)), Box::new(move |r| r.name_hash == Some(h)))
+                    };
+                    let list: Vec<(usize, u32, u64, [u8; 16])> =
+                        ents.map(|v| v.iter().map(|e| (e.block_index, e.locale_flags.value(), e.content_flags.value, *e.content_key.as_bytes())).collect()).unwrap_or_default();
+                    let mut got: Vec<(u32, u64, [u8; 16])> = list.iter().map(|e| (e.1, e.2, e.3)).collect();
+                    got.sort();
+                    let names_ok = *op == "ids" || st.consistent_names;
+                    if !st.wide && names_ok && (got != want || ents.is_some_and(|v| v.is_empty())) {
+                        let sig = if st.ambiguous { SIG_V2 } else { "root-entries" };
+                        let show = |v: &[(u32, u64, [u8; 16])]| v.iter().map(|e| format!("{:#x}:{:#x}:{}", e.0, e.1, hex(&e.2))).collect::<Vec<_>>().join(" ");
+                        fail(s, sig, format!("{op} {a}: lookup tables hold [{}], inserted (locale:content:ckey) [{}]", show(&got), show(&want)));
+                    }
+                    // each entry points at a parsed block with its flags that holds the record; block order
+                    let anchored = list.iter().all(|e| {
+                        p.blocks.get(e.0).is_some_and(|b| b.header.locale_flags.value() == e.1 && b.header.content_flags == e.2 && b.records.iter().any(|r| what(r) && *r.content_key.as_bytes() == e.3))
+                    }) && list.windows(2).all(|w| w[0].0 <= w[1].0);
+                    if !anchored {
+                        fail(s, "root-entries-vs-blocks", format!("{op} {a}: an entry's block_index / flags do not name a parsed block holding that record (or entries are not in block order): {:?}", list.iter().map(|e| (e.0, e.1, e.2, hex(&e.3))).collect::<Vec<_>>()));
+                    }
+                    Some(join_or(list.iter().map(|e| format!("{}:{}:{}:{}", e.0, e.1, e.2, hex(&e.3))).collect(), ";"))
+                }
+                [op @ ("id" | "nh" | "path"), a, loc, cf] => {
+                    let Some(p) = &st.parsed else { return if built { Some("err:nofile".into()) } else { None } };
+                    let (loc, cf) = (loc.parse::<u32>().ok()?, cf.parse::<u64>().ok()?);
                     let (l, c) = (LocaleFlags::new(loc), ContentFlags::new(cf));
-                    let (got, want) = match *op {
-                        "id" => (
-                            p.resolve_by_id(FileDataId::new(a as u32), l, c),
-                            st.by_id.get(&(a as u32)).map(|v| v.iter().filter(|e| entry_matches(e.0, e.1, loc, cf)).map(|e| e.2).collect::<BTreeSet<_>>()).unwrap_or_default(),
-                        ),
-                        "nh" => (
-                            p.resolve_by_hash(a, l, c),
-                            st.by_hash.get(&a).map(|v| v.iter().filter(|e| entry_matches(e.0, e.1, loc, cf)).map(|e| e.2).collect::<BTreeSet<_>>()).unwrap_or_default(),
-                        ),
-                        _ => return None,
+                    // got = the lookup tables' answer; want = content keys of the inserted records of this
+                    // (id | hash | path) whose own block's (locale, content) matches the query; scan = first
+                    // matching record of a linear scan over the parsed blocks
+                    let (got, want, scan) = match *op {
+                        "id" => {
+                            let fd = a.parse::<u64>().ok()? as u32;
+                            (p.resolve_by_id(FileDataId::new(fd), l, c), ref_matches(&st.by_id, &fd, loc, cf), scan_blocks(p, |r| r.file_data_id.get() == fd, loc, cf))
+                        }
+                        "nh" => {
+                            let h = a.parse::<u64>().ok()?;
+                            (p.resolve_by_hash(h, l, c), ref_matches(&st.by_hash, &h, loc, cf), scan_blocks(p, |r| r.name_hash == Some(h), loc, cf))
+                        }
+                        _ => {
+                            let raw = unhex(a)?;
+                            if !raw.is_ascii() {
+                                return None;
+                            }
+                            let ps = String::from_utf8(raw.clone()).ok()?;
+                            let h = calculate_name_hash(&ps);
+                            (p.resolve_by_path(&ps, l, c), ref_matches(&st.by_path, &norm_path(&raw), loc, cf), scan_blocks(p, |r| r.name_hash == Some(h), loc, cf))
+                        }
                     };
                     let g = got.map(|k| *k.as_bytes());
                     // exactly the inserted value when one inserted record matches, nothing when none does
+                    let by_name = *op != "id";
                     let ok = match (want.len(), g) {
                         (0, None) => true,
-                        (0, Some(_)) => !st.consistent_names && *op == "nh",
+                        (0, Some(_)) => !st.consistent_names && by_name,
                         (_, Some(k)) => want.contains(&k),
-                        (_, None) => *op == "nh" && !st.consistent_names,
+                        (_, None) => by_name && !st.consistent_names,
                     };
                     if !ok {
                         let sig = if st.ambiguous { SIG_V2 } else { "root-lookup" };
-                        fail(s, sig, format!("{op} {a} locale {loc:#x} content {cf:#x}: got {:?}, inserted {:?}", g.map(|k| hex(&k)), want.iter().map(|k| hex(k)).collect::<Vec<_>>()));
+                        fail(s, sig, format!("{op} {a} locale {loc:#x} content {cf:#x}: got {:?}, inserted in a matching (locale, content) block {:?}", g.map(|k| hex(&k)), want.iter().map(|k| hex(k)).collect::<Vec<_>>()));
+                    }
+                    // every lookup flavour agrees with a linear scan of the entries
+                    if g != scan {
+                        fail(s, "root-lookup-vs-scan", format!("{op} {a} locale {loc:#x} content {cf:#x}: lookup tables give {:?}, a linear scan of the parsed blocks gives {:?}", g.map(|k| hex(&k)), scan.map(|k| hex(&k))));
                     }
                     Some(g.map(|k| hex(&k)).unwrap_or("none".into()))
                 }
@@ -840,23 +949,26 @@ impl Impl {
                 }
                 [op, arg] => {
                     let Some(r) = &st.resolver else { return if built { Some("err:nofile".into()) } else { None } };
-                    let (got, want_ck): (Option<EncodingKey>, Option<[u8; 16]>) = match *op {
+                    // the content keys inserted for the FileDataID / path (one, unless the file is listed by
+                    // several blocks with different keys: the resolver ignores locale/content, any of them is
+                    // an inserted value) composed with the inserted encoding map
+                    let (got, want_cks): (Option<EncodingKey>, BTreeSet<[u8; 16]>) = match *op {
                         "rf" => {
                             let fd: u32 = arg.parse().ok()?;
-                            (r.resolve_fdid_to_encoding(fd), st.recs.iter().rev().find(|x| x.0 == fd).map(|x| x.1))
+                            (r.resolve_fdid_to_encoding(fd), st.recs.iter().filter(|x| x.0 == fd).map(|x| x.1).collect())
                         }
                         "rq" => {
                             let path = unhex(arg)?;
                             let ps = String::from_utf8(path.clone()).ok()?;
-                            (r.resolve_path_to_encoding(&ps), st.recs.iter().find(|x| norm_path(&x.2) == norm_path(&path)).map(|x| x.1))
+                            (r.resolve_path_to_encoding(&ps), st.recs.iter().filter(|x| norm_path(&x.2) == norm_path(&path)).map(|x| x.1).collect())
                         }
                         _ => return None,
                     };
-                    let want = want_ck.and_then(|c| st.ck_ref.get(&c).copied());
+                    let want: BTreeSet<Option<[u8; 16]>> = if want_cks.is_empty() { [None].into_iter().collect() } else { want_cks.iter().map(|c| st.ck_ref.get(c).copied()).collect() };
                     let g = got.map(|e| *e.as_bytes());
-                    if g != want {
+                    if !want.contains(&g) {
                         let sig = if st.ambiguous { SIG_V2 } else if *op == "rf" { "res-fdid-chain" } else { "res-path-chain" };
-                        fail(s, sig, format!("{op} {arg}: resolver returned {:?}, composition of the inserted maps gives {:?}", g.map(|k| hex(&k)), want.map(|k| hex(&k))));
+                        fail(s, sig, format!("{op} {arg}: resolver returned {:?}, composition of the inserted maps gives {:?}", g.map(|k| hex(&k)), want.iter().map(|w| w.map(|k| hex(&k))).collect::<Vec<_>>()));
                     }
                     Some(g.map(|k| hex(&k)).unwrap_or("none".into()))
                 }
@@ -1145,6 +1257,180 @@ fn case_root(im: &mut Impl, s: &mut Session, rng: &mut Rng, ver: u32, total: usi
     s.case(Some(&format!("root v{ver} {total} {named} {blocks} {}", recs.first().map(|r| r.0).unwrap_or(0))));
 }
 
+/// A root manifest in the shipped layout: one block per (locale, content flags) combination and most
+/// files listed by SEVERAL blocks — with the identical content key in all of them (locale-independent
+/// file), a different key per block (localised file) or a mix — and every lookup flavour asked with each
+/// block's own locale / content flags, with masks matching several blocks, and with masks matching none.
+/// `names`: 0 = no block carries name hashes, 1 = numeric name hashes, 2 = paths (resolve_by_path),
+/// 3 = named and unnamed blocks mixed. `shape`: 0 = blocks differ in locale only, 1 = in content flags
+/// only, 2 = locale x content grid, 3 = overlapping multi-bit locale masks and nested content flags.
+fn case_root_multi(im: &mut Impl, s: &mut Session, rng: &mut Rng, ver: u32, names: u8, shape: u8, nfiles: usize) {
+    im.exec(s, &format!("begin root {ver}"));
+    const NO_NAME: u64 = 0x1000_0000;
+    let all_loc = [0x2u32, 0x4, 0x10, 0x20, 0x40, 0x80, 0x100, 0x200, 0x1000, 0x8000_0000];
+    let all_cf = [0u64, 0x4, 0x8, 0x10, 0x80, 0x88, 0x800_0000];
+    let pick_distinct = |rng: &mut Rng, n: usize, from: usize| -> Vec<usize> {
+        let mut idx: Vec<usize> = (0..from).collect();
+        for i in (1..idx.len()).rev() { let j = rng.below(i as u64 + 1) as usize; idx.swap(i, j); }
+        idx.truncate(n);
+        idx
+    };
+    // (locale, content flags without the NO_NAME_HASH bit) per block, in a random order
+    let mut flags: Vec<(u32, u64)> = match shape {
+        0 => {
+            let cf = *rng.pick(&all_cf);
+            let nb = rng.range(2, 5) as usize;
+            pick_distinct(rng, nb, all_loc.len()).into_iter().map(|i| (all_loc[i], cf)).collect()
+        }
+        1 => {
+            let loc = if rng.chance(1, 3) { 0x2 | 0x200 } else { *rng.pick(&all_loc) };
+            let nb = rng.range(2, 4) as usize;
+            pick_distinct(rng, nb, all_cf.len()).into_iter().map(|i| (loc, all_cf[i])).collect()
+        }
+        2 => {
+            let ls = pick_distinct(rng, 2, all_loc.len());
+            let cs = pick_distinct(rng, 2, all_cf.len());
+            let mut v = vec![];
+            for &l in &ls { for &c in &cs { v.push((all_loc[l], all_cf[c])); } }
+            if rng.chance(1, 2) { v.remove(rng.below(4) as usize); }
+            v
+        }
+        _ => {
+            // a single-locale query matches several blocks; a content query is satisfied by supersets
+            let mut v = vec![(0x2 | 0x10, 0x8), (0x10 | 0x20, 0x8 | 0x4), (0x20, 0x8), (0xFFFF_FFFF, 0)];
+            if rng.chance(1, 2) { v.push((0x2, 0x8 | 0x80)); }
+            if rng.chance(1, 2) { v.remove(rng.below(3) as usize); }
+            v
+        }
+    };
+    for i in (1..flags.len()).rev() { let j = rng.below(i as u64 + 1) as usize; flags.swap(i, j); }
+    if ver == 4 && rng.chance(1, 2) {
+        let k = rng.below(flags.len() as u64) as usize;
+        if !flags.iter().any(|f| *f == (flags[k].0, flags[k].1 | 1 << 33)) { flags[k].1 |= 1 << 33; }
+    }
+    let nb = flags.len();
+    // which blocks carry name hashes (V1: all); unnamed V2+ blocks have NO_NAME_HASH in their content flags
+    let block_named: Vec<bool> = (0..nb).map(|j| ver == 1 || match names { 0 => false, 3 => j % 2 == 0 || rng.chance(1, 3), _ => true }).collect();
+    let blocks: Vec<(u32, u64)> = flags.iter().zip(&block_named).map(|(f, n)| (f.0, if *n { f.1 } else { f.1 | NO_NAME })).collect();
+    let use_paths = names == 2 || (names == 3 && rng.chance(1, 2));
+
+    struct F { fd: u32, member: Vec<bool>, cks: Vec<Vec<u8>>, path: Vec<u8>, nh: u64 }
+    let mut files: Vec<F> = vec![];
+    let mut fd: u32 = rng.below(5000) as u32;
+    let (mut total, mut named_total) = (0usize, 0usize);
+    let mut tally_modes = [0u64; 3];
+    let rver = ver_of(&ver.to_string()).unwrap_or(RootVersion::V1);
+    // (a V2 manifest is kept out of the recorded header-ambiguity window 16..99 files / < 10 named)
+    while files.len() < nfiles || v2_ambiguous(rver, total, named_total) {
+        fd += match rng.below(6) { 0 => 1, 1 => rng.range(1, 100_000) as u32, _ => rng.range(1, 5) as u32 };
+        // membership: all blocks / a random subset with at least two (one when there is no choice)
+        let mut member: Vec<bool> = (0..nb).map(|_| rng.chance(1, 2)).collect();
+        if rng.chance(1, 2) { member = vec![true; nb]; }
+        while member.iter().filter(|m| **m).count() < 2.min(nb) { let k = rng.below(nb as u64) as usize; member[k] = true; }
+        if rng.chance(1, 10) { member = vec![false; nb]; let k = rng.below(nb as u64) as usize; member[k] = true; }
+        // content keys: identical in every listing block / one per block / two groups
+        let mode = match rng.below(10) { 0..=3 => 0, 4..=6 => 1, _ => 2 };
+        tally_modes[mode] += 1;
+        let shared = rng.bytes(16);
+        let other = rng.bytes(16);
+        let split = rng.below(nb as u64 + 1) as usize;
+        let cks: Vec<Vec<u8>> = (0..nb).map(|j| match mode { 0 => shared.clone(), 1 => rng.bytes(16), _ => if j < split { shared.clone() } else { other.clone() } }).collect();
+        let path = match files.len() % 3 {
+            0 => format!("Interface/Glues/Multi_{fd}_{}.blp", rng.below(1000)),
+            1 => format!("WORLD\\MAPS\\M{fd}\\TILE_{}.ADT", rng.below(64)),
+            _ => format!("sound/Music\\zone{fd}.mp3"),
+        }.into_bytes();
+        for j in 0..nb { if member[j] { total += 1; if block_named[j] { named_total += 1; } } }
+        files.push(F { fd, member, cks, path, nh: rng.next() | 1 });
+    }
+    // a name shared by two different FileDataIDs in different blocks (per-locale file ids)
+    if files.len() >= 2 && !use_paths && nb >= 2 && rng.chance(1, 2) {
+        let (a, b) = (0, files.len() - 1);
+        let saved = (files[a].member.clone(), files[b].member.clone(), files[b].nh);
+        files[b].nh = files[a].nh;
+        files[a].member = vec![false; nb]; files[a].member[0] = true;
+        files[b].member = vec![false; nb]; files[b].member[1] = true;
+        let count = |named_only: bool| files.iter().map(|f| (0..nb).filter(|j| f.member[*j] && (!named_only || block_named[*j])).count()).sum::<usize>();
+        if v2_ambiguous(rver, count(false), count(true)) {
+            files[a].member = saved.0; files[b].member = saved.1; files[b].nh = saved.2;
+        }
+    }
+    let mut recs: Vec<(usize, usize)> = vec![];
+    for (i, f) in files.iter().enumerate() { for j in 0..nb { if f.member[j] { recs.push((i, j)); } } }
+    for i in (1..recs.len()).rev() { let j = rng.below(i as u64 + 1) as usize; recs.swap(i, j); }
+    for &(i, j) in &recs {
+        let f = &files[i];
+        let (loc, cf) = blocks[j];
+        if !block_named[j] {
+            im.exec(s, &format!("r {} {} - {loc} {cf}", f.fd, hex(&f.cks[j])));
+        } else if use_paths {
+            im.exec(s, &format!("rp {} {} {} {loc} {cf}", f.fd, hex(&f.cks[j]), hex(&f.path)));
+        } else {
+            im.exec(s, &format!("r {} {} {} {loc} {cf}", f.fd, hex(&f.cks[j]), f.nh));
+        }
+    }
+    im.exec(s, "build");
+    im.exec(s, "blocks");
+    im.exec(s, "stats");
+    let any_named = block_named.iter().any(|n| *n);
+    let stride = (files.len() * nb / 500).max(1);
+    let union_loc = blocks.iter().fold(0u32, |a, b| a | b.0);
+    let unused_loc = all_loc.iter().copied().find(|l| union_loc & l == 0);
+    for (i, f) in files.iter().enumerate() {
+        if i % stride != 0 && i + 1 != files.len() { continue; }
+        let name_q = |im: &mut Impl, s: &mut Session, loc: u32, cf: u64| {
+            if !any_named { return; }
+            if use_paths { im.exec(s, &format!("path {} {loc} {cf}", hex(&f.path))); } else { im.exec(s, &format!("nh {} {loc} {cf}", f.nh)); }
+        };
+        // each block's own (locale, content flags) — listing blocks and the others
+        for &(loc, cf) in &blocks {
+            im.exec(s, &format!("id {} {loc} {cf}", f.fd));
+            name_q(im, s, loc, cf);
+        }
+        // every table entry of the file
+        im.exec(s, &format!("ids {}", f.fd));
+        if use_paths && any_named { im.exec(s, &format!("paths {}", hex(&f.path))); }
+        // one locale bit at a time with no content requirement; masks matching several blocks; no locale
+        for &(loc, _) in &blocks {
+            let bit = 1u32 << loc.trailing_zeros();
+            im.exec(s, &format!("id {} {bit} 0", f.fd));
+            name_q(im, s, bit, 0);
+        }
+        im.exec(s, &format!("id {} {} 0", f.fd, 0xFFFF_FFFFu32));
+        name_q(im, s, 0xFFFF_FFFF, 0);
+        if i % 3 == 0 {
+            let (a, b) = (blocks[rng.below(nb as u64) as usize], blocks[rng.below(nb as u64) as usize]);
+            im.exec(s, &format!("id {} {} {}", f.fd, a.0 | b.0, a.1 & b.1));
+            name_q(im, s, a.0 | b.0, a.1 & b.1);
+            im.exec(s, &format!("id {} {} {}", f.fd, 0xFFFF_FFFFu32, a.1));
+            im.exec(s, &format!("id {} {} {}", f.fd, a.0, a.1 | 0x4000));       // a content bit no block has
+            im.exec(s, &format!("id {} 0 {}", f.fd, a.1));                      // empty locale mask
+            if let Some(l) = unused_loc { im.exec(s, &format!("id {} {l} 0", f.fd)); name_q(im, s, l, 0); }
+            // a FileDataID / name that was never inserted, asked with flags of existing blocks
+            im.exec(s, &format!("id {} {} {}", f.fd + 2_000_000, a.0, a.1));
+            im.exec(s, &format!("ids {}", f.fd + 2_000_000));
+            if any_named {
+                if use_paths {
+                    // path normalisation: case and separators do not matter; a different name does
+                    let alt: Vec<u8> = f.path.iter().map(|c| if *c == b'\\' { b'/' } else if c.is_ascii_lowercase() { c.to_ascii_uppercase() } else { c.to_ascii_lowercase() }).collect();
+                    im.exec(s, &format!("path {} {} {}", hex(&alt), a.0, a.1));
+                    let mut no = f.path.clone(); no.push(b'x');
+                    im.exec(s, &format!("path {} {} {}", hex(&no), a.0, a.1));
+                    im.exec(s, &format!("paths {}", hex(&no)));
+                } else {
+                    im.exec(s, &format!("nh {} {} {}", f.nh.wrapping_add(2), a.0, a.1));
+                }
+            }
+        }
+    }
+    s.tally_n("root.multi.files.same-ckey-in-all-blocks", tally_modes[0]);
+    s.tally_n("root.multi.files.ckey-per-block", tally_modes[1]);
+    s.tally_n("root.multi.files.two-ckey-groups", tally_modes[2]);
+    s.tally(&format!("root.multi.blocks.{nb}"));
+    s.tally(&format!("root.multi.shape.{}", ["locales", "content", "grid", "overlap"][shape as usize % 4]));
+    s.case(Some(&format!("rootm v{ver} names{names} shape{shape} {} {nb} {}", files.len(), files.first().map(|f| f.fd).unwrap_or(0))));
+}
+
 fn name(rng: &mut Rng, len: usize) -> Vec<u8> {
     let alpha = b"abcdefghijklmnopqrstuvwxyzABCDEF0123456789_.- ";
     let mut v: Vec<u8> = (0..len).map(|_| *rng.pick(alpha)).collect();
@@ -1204,11 +1490,12 @@ fn case_tvfs(im: &mut Impl, s: &mut Session, rng: &mut Rng, nfiles: usize, long:
     s.case(Some(&format!("tvfs {flags} {} {:?} {}", list.len(), long, list.first().map(|p| hex(p)).unwrap_or_default())));
 }
 
-fn case_res(im: &mut Impl, s: &mut Session, rng: &mut Rng, ver: u32, total: usize) {
+fn case_res(im: &mut Impl, s: &mut Session, rng: &mut Rng, ver: u32, total: usize, multi: bool) {
     im.exec(s, &format!("begin res {ver}"));
     let mut fd = rng.below(500) as u32;
     let cstyle = rng.below(3);
-    let cks = key_set(rng, 16, total + 3, cstyle, false);
+    let mut cks = key_set(rng, 16, total + 6, cstyle, false);
+    let alt = cks.split_off(total + 3);
     let mut paths = vec![];
     for i in 0..total {
         fd += rng.range(1, 9) as u32;
@@ -1217,11 +1504,17 @@ fn case_res(im: &mut Impl, s: &mut Session, rng: &mut Rng, ver: u32, total: usiz
             1 => format!("WORLD\\MAPS\\AZEROTH\\TILE_{i}.ADT").into_bytes(),
             _ => format!("sound\\music/Track{i}.mp3").into_bytes(),
         };
-        im.exec(s, &format!("rp {fd} {} {} 2 0", hex(&cks[i]), hex(&p)));
+        // one block (enUS), or the file listed by two or three (locale, content) blocks — with the same
+        // content key (the resolver's maps ignore locale/content) or, every fifth file, one key per block
+        let listing: &[(u32, u64)] = match if multi { rng.below(4) } else { 0 } { 0 => &[(2, 0)], 1 => &[(0x10, 0), (2, 0)], 2 => &[(0x20, 8), (0x10, 0)], _ => &[(2, 0), (0x20, 8), (0x10, 0)] };
+        for (j, (loc, cf)) in listing.iter().enumerate() {
+            let ck = if multi && i % 5 == 4 && j > 0 { &alt[(i + j) % alt.len()] } else { &cks[i] };
+            im.exec(s, &format!("rp {fd} {} {} {loc} {cf}", hex(ck), hex(&p)));
+        }
         paths.push((fd, p));
     }
     // encoding table: every content key of the root except the last two, plus one unrelated
-    for (i, ck) in cks.iter().enumerate() {
+    for (i, ck) in cks.iter().chain(alt.iter().take(2)).enumerate() {
         if i + 2 >= total && i < total { continue; }
         let ek1 = rng.bytes(16);
         let ek2 = rng.bytes(16);
@@ -1235,14 +1528,14 @@ fn case_res(im: &mut Impl, s: &mut Session, rng: &mut Rng, ver: u32, total: usiz
     }
     im.exec(s, &format!("rf {}", fd + 7));
     im.exec(s, &format!("rq {}", hex(b"no/such/file")));
-    s.case(Some(&format!("res v{ver} {total} {fd}")));
+    s.case(Some(&format!("res v{ver} {total} {fd} {multi}")));
 }
 
 fn main() {
     let args = Args::parse();
     quiet_panics();
     let mut s = Session::new(&args.out);
-    s.rule = "seeded cases per area: encoding tables (CKey/EKey page sizes 1-4 KiB, entry counts at every page-capacity multiple ±1 up to 3 (thorough 6) pages, 1..n EKeys per CKey incl. a page-filling entry; keys random / sharing all but the last 1-2 bytes / dense ±1 counters / all-00 and all-FF), CDN archive indices for every key size 1..16 × offset width 4/5/6 (entry counts at block-capacity multiples ±1), archive groups (157/158, 314/315/316 … entries), root manifests V1–V4 × named/unnamed × file counts {1,2,15,16,17,20,50,99,100,101,…} × 1–4 blocks, TVFS path trees (names 1..254 bytes, depth ≤ 12, 255/256/300-byte names as the recorded finding), resolver chain; probes = every inserted key, key±1, extremes, random, truncated/over-long keys, shuffled batches with repeats. non-trivial = case built and parsed and reached the lookups; distinct = canonical case parameters + first key".into();
+    s.rule = "seeded cases per area: encoding tables (CKey/EKey page sizes 1-4 KiB, entry counts at every page-capacity multiple ±1 up to 3 (thorough 6) pages, 1..n EKeys per CKey incl. a page-filling entry; keys random / sharing all but the last 1-2 bytes / dense ±1 counters / all-00 and all-FF), CDN archive indices for every key size 1..16 × offset width 4/5/6 (entry counts at block-capacity multiples ±1), archive groups (157/158, 314/315/316 … entries), root manifests V1–V4 × named/unnamed × file counts {1,2,15,16,17,20,50,99,100,101,…} × 1–4 blocks, multi-block root manifests V1–V4 × {no name hashes, numeric hashes, paths, named+unnamed blocks mixed} × {blocks differing in locale only / content flags only / locale×content grid / overlapping multi-bit locale masks with nested content flags} with 1..150 (thorough 400) files each listed by several of the 2–5 blocks with the identical content key, one key per block or two key groups (also one name hash under two FileDataIDs), looked up by id / name hash / path under EVERY block's own (locale, content flags), single locale bits, unions, all-locales, stricter content, empty and unused locale masks, plus the lookup tables' entry lists (get_entries_by_id / get_entries_by_path) and lookup_stats, TVFS path trees (names 1..254 bytes, depth ≤ 12, 255/256/300-byte names as the recorded finding), resolver chain (files in one block and files listed by 2–3 locale/content blocks with shared or per-block content keys); probes = every inserted key, key±1, extremes, random, truncated/over-long keys, shuffled batches with repeats. non-trivial = case built and parsed and reached the lookups; distinct = canonical case parameters + first key".into();
     let mut rng = Rng::new(args.seed);
     let mut im = Impl::new();
 
@@ -1315,6 +1608,23 @@ fn main() {
             }
         }
     }
+    // --- roots whose files are listed by several blocks (shared / per-block content keys), lookups
+    //     qualified by every block's locale and content flags
+    let multi_counts: Vec<usize> = if th { vec![1, 2, 3, 7, 16, 33, 50, 100, 150, 400] } else { vec![1, 2, 5, 12, 40, 150] };
+    for ver in 1..=4u32 {
+        for names in 0..4u8 {
+            if ver == 1 && (names == 0 || names == 3) { continue; }   // V1 blocks always carry name hashes
+            for shape in 0..4u8 {
+                let n = multi_counts[((ver as usize) + (names as usize) * 3 + (shape as usize) * 5 + rng.below(2) as usize) % multi_counts.len()];
+                case_root_multi(&mut im, &mut s, &mut rng, ver, names, shape, n);
+                if th { let n2 = *rng.pick(&multi_counts); case_root_multi(&mut im, &mut s, &mut rng, ver, names, shape, n2); }
+            }
+        }
+    }
+    // the shipped shape: 150 files in three locale blocks, every third file locale-independent
+    for ver in 1..=4u32 {
+        case_root_multi(&mut im, &mut s, &mut rng, ver, if ver % 2 == 0 { 2 } else { 1 }, 0, 150);
+    }
     // --- tvfs
     for n in if th { vec![0usize, 1, 2, 11, 12, 13, 40, 200, 2978, 2979, 2980] } else { vec![0usize, 1, 2, 11, 12, 13, 60, 300] } {
         case_tvfs(&mut im, &mut s, &mut rng, n, None);
@@ -1325,7 +1635,8 @@ fn main() {
     // --- resolver chain
     for ver in 1..=4u32 {
         for n in [3usize, 12, 40, 120] {
-            case_res(&mut im, &mut s, &mut rng, ver, n);
+            case_res(&mut im, &mut s, &mut rng, ver, n, false);
+            case_res(&mut im, &mut s, &mut rng, ver, n, true);
         }
     }
     s.finish();
